@@ -302,34 +302,42 @@ theorem C16_list_request_terminates (g : Graph) (resp : Option (List Prop')) :
     ∃ r, buildListRequest g resp = some r :=
   Option.isSome_iff_exists.mp (buildListRequest_isSome g resp)
 
-/-- full strength: a method whose request has a `j5.list.v1.QueryRequest` property always gets its
-list request, whatever its response looks like. The compiler puts no condition on the response of
-such a method. -/
-def ListRequestFull : Prop :=
-  ∀ (g : Graph) (resp : Option (List Prop')), FlatLinked g → Linked g → NoBadDefaults g →
-    ∃ lr, buildListRequest g resp = some (.ok lr)
+/-- **Whatever the compiler accepts as the response of a list method, the client accepts**
+(finding `client:err:list-response-shape`, repaired by `fix:` 57821b0: `checkListMethod` demands a
+response with exactly one array property, of objects, of every method whose request takes a
+`j5.list.v1.QueryRequest`): `buildListRequest`'s own shape checks (`no array found`,
+`found multiple arrays`, `expected object schema`, and the missing response body of d14b8cb) then
+all pass — given what the schema reader establishes, that the object field of the array's items
+refers to an object of the schema set (`ItemRefsOk`). -/
+theorem C16_list_shape_accepted (g : Graph) (props : List Prop')
+    (h : compileListShapeOk (some props) = true) (hk : ItemRefsOk g props) :
+    ListShaped g (some props) = true :=
+  listShaped_of_compile g props h hk
 
-/-- false of the code as it is (open finding `client:err:list-response-shape`): a response without
-an array (`response { field name string }`), with two arrays, with an array of scalars, or no
-response body at all compiles, and `j5client.APIFromSource` then refuses the whole API
-(replay: the corpus op `chain foo.v1 0 1 Foo ~ 1 Search GET … query - X j5.list.v1 QueryRequest 1 1 name - str 0 …`).
-The missing response body was a nil pointer dereference before `fix:` d14b8cb. -/
-theorem C16_list_request_counterexample : ¬ ListRequestFull := by
-  intro h
-  obtain ⟨lr, hlr⟩ := h [] (some [{ name := b!"name", field := .scalar }]) (by decide) (by decide) (by decide)
-  have hval : buildListRequest [] (some [{ name := b!"name", field := .scalar }]) = some (.err "no-array-found") := by
-    decide
-  rw [hval] at hlr
-  cases hlr
-
-/-- … and holds for every response that has exactly one array, of objects (`ListShaped`,
-decidable): on a linked schema set the list request is built — no error, no panic — through
-recursive and flattened schemas alike (`NoBadDefaults`: what `C16_list_defaults_accepted` gives for
-everything the compiler accepts) -/
-theorem C16_list_request_partial (g : Graph) (resp : Option (List Prop')) (hs : ListShaped g resp = true)
+/-- … and so the list request of every compiled list method is built: no error, no panic, through
+recursive and flattened schemas alike, on a linked schema set (`NoBadDefaults`: what
+`C16_list_defaults_accepted` gives for everything the compiler accepts). Full strength since
+57821b0; before it this needed `ListShaped` as an extra hypothesis. -/
+theorem C16_list_request_accepted (g : Graph) (resp : Option (List Prop'))
+    (hc : compileListShapeOk resp = true) (hk : ∀ props, resp = some props → ItemRefsOk g props)
     (hf : FlatLinked g) (hl : Linked g) (hb : NoBadDefaults g) :
-    ∃ lr, buildListRequest g resp = some (.ok lr) :=
-  buildListRequest_ok g resp hs hf hl hb
+    ∃ lr, buildListRequest g resp = some (.ok lr) := by
+  cases resp with
+  | none => simp [compileListShapeOk] at hc
+  | some props =>
+    exact buildListRequest_ok g (some props) (listShaped_of_compile g props hc (hk props rfl)) hf hl hb
+
+/-- the witnesses of the repaired finding (replays: the corpus ops `chain … Search GET … query - X
+j5.list.v1 QueryRequest …`): no response body, no array, two arrays, an array of scalars — the
+compiler now rejects each, the client-side checks still would -/
+theorem C16_list_shape_rejected :
+    compileListShapeOk none = false
+    ∧ compileListShapeOk (some [{ name := b!"name", field := .scalar }]) = false
+    ∧ compileListShapeOk (some [{ name := b!"a", field := .array (.object 0) }, { name := b!"b", field := .array (.object 0) }]) = false
+    ∧ compileListShapeOk (some [{ name := b!"xs", field := .array .scalar }]) = false
+    ∧ buildListRequest [] none = some (.err "no-response-body")
+    ∧ buildListRequest [] (some [{ name := b!"name", field := .scalar }]) = some (.err "no-array-found") := by
+  decide
 
 /-- **every collected path resolves in the response item schema**: each filterable / sortable /
 searchable field path of the list request leads, from the item object through the client
@@ -583,7 +591,13 @@ example : ¬ FlatLinked [{ kind := .object, props := [{ name := b!"x", field := 
 def flatResponse : List Prop' :=
   [{ name := b!"items", field := .array (.object 0) }, { name := b!"page", field := .scalar }]
 
-example : ListShaped flatGraph (some flatResponse) = true := by decide
+example : compileListShapeOk (some flatResponse) = true ∧ ItemRefsOk flatGraph flatResponse
+    ∧ ListShaped flatGraph (some flatResponse) = true := by
+  refine ⟨by decide, ?_, by decide⟩
+  intro r hr
+  have : r = 0 := by simpa [flatResponse, arrayElems] using hr
+  subst this
+  exact ⟨_, rfl, rfl⟩
 example : buildListRequest flatGraph (some flatResponse) =
     some (.ok { filter := [], sort := [], search := [[b!"bName"], [b!"cName"], [b!"plain", b!"cName"]] }) := by
   decide
@@ -745,6 +759,18 @@ theorem C16_src_flatten_list_swagger :
     ∧ swaggerAddMethodFacts = ["if pathItem.MapKey() == method.HttpPath", "break", "if !found",
         "dd.Paths = append(dd.Paths, pathItem)"]
     ∧ swaggerRangeLoops = ["range b.Packages", "range pkg.Services", "range b.Packages", "range pkg.Schemas"] := by
+  decide
+
+/-- the producer's list-shape check is in the source and is the one `compileListShapeOk` models:
+`visitServiceMethodNode` records the error of `checkListMethod`; that function looks for a request
+property whose object reference resolves to `j5.list.v1` / `QueryRequest`, demands a response,
+collects the items of the response's array properties and demands exactly one, an object field -/
+theorem C16_src_compile_list_check :
+    compileListCheckCalled = true
+    ∧ compileListCheckFacts = ["if ref == nil", "continue", "if err != nil", "continue",
+        "if typeRef.Package == \"j5.list.v1\" && typeRef.Name == \"QueryRequest\"", "if !isList",
+        "if method.Response == nil", "if array != nil", "items = append(items, array.Items)",
+        "if len(items) != 1 || items[…].GetObject() == nil"] := by
   decide
 
 end J5V.Props.C16
